@@ -13,25 +13,28 @@ namespace Scenic.LTL
 
 /-! ## Boolean connectives have their ordinary meaning (any sub-formulas, any index) -/
 
+theorem tr_not (v : Nat) : truthy (5 - v) = !truthy v := by
+  unfold truthy; by_cases h : 3 ≤ v <;> simp [h] <;> omega
+theorem tr_min (v w : Nat) : truthy (min v w) = (truthy v && truthy w) := by
+  unfold truthy; by_cases h : 3 ≤ v <;> by_cases h' : 3 ≤ w <;> simp [h, h'] <;> omega
+theorem tr_max (v w : Nat) : truthy (max v w) = (truthy v || truthy w) := by
+  unfold truthy; by_cases h : 3 ≤ v <;> by_cases h' : 3 ≤ w <;> simp [h, h'] <;> omega
+
 theorem truthy_not (c : MonCfg) (σ : Trace) (n : Nat) (f : F) (i : Nat) :
     truthy (evalAt c σ n (.not f) i) = !truthy (evalAt c σ n f i) := by
-  simp only [evalAt, truthy]
-  by_cases h : 3 ≤ evalAt c σ n f i <;> simp [h] <;> omega
+  simp only [evalAt]; exact tr_not _
 
 theorem truthy_and (c : MonCfg) (σ : Trace) (n : Nat) (a b : F) (i : Nat) :
     truthy (evalAt c σ n (.and a b) i) = (truthy (evalAt c σ n a i) && truthy (evalAt c σ n b i)) := by
-  simp only [evalAt, truthy]
-  by_cases h : 3 ≤ evalAt c σ n a i <;> by_cases h' : 3 ≤ evalAt c σ n b i <;> simp [h, h'] <;> omega
+  simp only [evalAt]; exact tr_min _ _
 
 theorem truthy_or (c : MonCfg) (σ : Trace) (n : Nat) (a b : F) (i : Nat) :
     truthy (evalAt c σ n (.or a b) i) = (truthy (evalAt c σ n a i) || truthy (evalAt c σ n b i)) := by
-  simp only [evalAt, truthy]
-  by_cases h : 3 ≤ evalAt c σ n a i <;> by_cases h' : 3 ≤ evalAt c σ n b i <;> simp [h, h'] <;> omega
+  simp only [evalAt]; exact tr_max _ _
 
 theorem truthy_implies (c : MonCfg) (σ : Trace) (n : Nat) (a b : F) (i : Nat) :
     truthy (evalAt c σ n (.implies a b) i) = (!truthy (evalAt c σ n a i) || truthy (evalAt c σ n b i)) := by
-  simp only [evalAt, truthy]
-  by_cases h : 3 ≤ evalAt c σ n a i <;> by_cases h' : 3 ≤ evalAt c σ n b i <;> simp [h, h'] <;> omega
+  simp only [evalAt]; rw [tr_max, tr_not]
 
 /-- n-ary `and` (`rv_ltl.And(*ops)`): truthy iff every operand is -/
 theorem truthy_andL (c : MonCfg) (σ : Trace) (n : Nat) (i : Nat) (fs : List F) :
@@ -160,7 +163,9 @@ theorem untilVal_ev {c : MonCfg} {r : Nat → Nat} {n i : Nat} (hr : ∀ k, r k 
       | none => 2
       | some k => r k := by
   unfold untilVal
-  split <;> simp [minRange_const4 (hr _)]
+  cases findFrom (fun k => truthy (r k)) i (n - 1 + 1 - i) with
+  | none => rfl
+  | some k => exact minRange_const4 (hr k)
 
 theorem ev_truthy_iff {c : MonCfg} {r : Nat → Nat} {n i : Nat} (hn : i < n) (hr : ∀ k, r k ≤ 4) :
     3 ≤ untilVal c (fun _ => 4) r n i ↔ ∃ k, i ≤ k ∧ k < n ∧ 3 ≤ r k := by
@@ -356,5 +361,28 @@ theorem okZero_of_okAll (c : MonCfg) (crisp : Bool) : ∀ f : F, f.okAll c crisp
   | .until a b, h => by
     simp only [F.okAll, Bool.and_eq_true] at h
     simp [F.okZero, h.1.1.2, h.1.2, h.2]
+
+/-- the fragment for finality is contained in the fragment for exactness -/
+theorem okAll_mono (c : MonCfg) : ∀ f : F, f.okAll c true = true → f.okAll c false = true
+  | .atom _, _ | .tt, _ | .ff, _ => rfl
+  | .not f, h | .next f, h | .eventually f, h | .always f, h => by
+    simp only [F.okAll] at h ⊢; exact okAll_mono c f h
+  | .and a b, h | .or a b, h | .implies a b, h => by
+    simp only [F.okAll, Bool.and_eq_true] at h ⊢
+    exact ⟨okAll_mono c a h.1, okAll_mono c b h.2⟩
+  | .until a b, h => by
+    simp only [F.okAll, Bool.and_eq_true] at h
+    simp [F.okAll, h.1.1.1, okAll_mono c a h.1.1.2, okAll_mono c b h.1.2]
+
+theorem okZero_mono (c : MonCfg) : ∀ f : F, f.okZero c true = true → f.okZero c false = true
+  | .atom _, h | .tt, h | .ff, h | .next _, h | .eventually _, h | .always _, h => by
+    simp only [F.okZero] at h ⊢; exact okAll_mono c _ h
+  | .not f, h => by simp only [F.okZero] at h ⊢; exact okZero_mono c f h
+  | .and a b, h | .or a b, h | .implies a b, h => by
+    simp only [F.okZero, Bool.and_eq_true] at h ⊢
+    exact ⟨okZero_mono c a h.1, okZero_mono c b h.2⟩
+  | .until a b, h => by
+    simp only [F.okZero, Bool.and_eq_true] at h
+    simp [F.okZero, okAll_mono c a h.1.1, okAll_mono c b h.1.2]
 
 end Scenic.LTL
